@@ -497,7 +497,8 @@ func TestCheck(t *testing.T) {
 	r.SetRule("seed-determined messages. encode: all 32 flag x 16 opcode x 16 rcode combinations (index mod 8192), one name per message with (index mod 128) labels placed as question/owner/rdata name, " +
 		"records A/AAAA/NS/CNAME/PTR/HTTPS/OPT, first HTTPS record with SvcParam subset (index mod 64) of {alpn,no-default-alpn,port,ipv4hint,ech,ipv6hint}, sections of 0..20 records, " +
 		"forced classes root question name and root NS/CNAME/PTR target. decode: dnsmessage.Builder packets (3 of 4 with name compression) with A/AAAA/NS/CNAME/PTR/MX/SOA/TXT/SRV/OPT/SVCB/HTTPS, " +
-		"arbitrary legal SvcParam sets incl. mandatory and unknown keys, all 2^7 flag bits. padding: every question-name length 1..253 x 8 OPT situations. " +
+		"arbitrary legal SvcParam sets incl. mandatory and unknown keys, all 2^7 flag bits. A/AAAA/ipv4hint/ipv6hint addresses random or special (::, ::1, ::ffff:a.b.c.d, 64:ff9b::a.b.c.d, fe80::1, all ones; 0.0.0.0, 255.255.255.255, 127.0.0.1). " +
+		"chains: hand-assembled packets whose name at one of 11 positions (2nd+ question, owner, NS/CNAME/PTR/MX/SOA mname/SOA rname/SRV/SVCB/HTTPS RDATA) is a pointer, or labels then a pointer, reaching literal labels through 2..6 pointers via earlier owner/RDATA name fields. padding: every question-name length 1..253 x 8 OPT situations. " +
 		"distinct = distinct (workload, header selector, label count, SvcParam subset | name length, OPT situation) classes whose message reached the codec")
 	r.Assume("golang.org/x/net/dns/dnsmessage v0.42.0 as conforming RFC 1035 codec (parser and compressing builder)",
 		"the harness' own RFC 1035 uncompressed encoder/walker and RFC 9460 SvcParam codec (internal/dnsx), cross-checked against dnsmessage in every decode case",
@@ -541,10 +542,17 @@ func TestCheck(t *testing.T) {
 				for j, rr := range sec {
 					srr := [][]dnsx.RR{spec.Answer, spec.Authority, spec.Extra}[si][j]
 					want := srr.Wire()
-					if one := rr.Bytes(); !bytes.Equal(one, want) {
+					one := rr.Bytes()
+					if ip, ok := srr.Data.(dnsx.AAAA); ok && dnsx.IsIPv4Mapped(ip[:]) {
+						r.Count("aaaa_ipv4_mapped_encoded", 1)
+					}
+					if !bytes.Equal(one, want) {
 						sig := "encode:rr-bytes:" + dnsx.TypeName(rr.Type)
 						if hasRootTarget(srr) {
 							sig = "encode:rdata-name:root-target"
+						}
+						if ip, ok := srr.Data.(dnsx.AAAA); ok && dnsx.IsIPv4Mapped(ip[:]) {
+							sig += ":ipv4-mapped"
 						}
 						r.Violate("encode", i, sig, fmt.Sprintf("%s record %q with data %+v is encoded as %x, the independent RFC 1035/9460 encoder gives %x", dnsx.TypeName(rr.Type), rr.Name, srr.Data, one, want), payload)
 						bad = true
@@ -592,6 +600,7 @@ func TestCheck(t *testing.T) {
 	r.Floor("encode_messages", int64(nEnc))
 	r.Floor("encode_roundtrip_equal", int64(nEnc)*8/10)
 	r.Floor("extended_rcodes_above_15", 100)
+	r.Floor("aaaa_ipv4_mapped_encoded", int64(nEnc)/100)
 
 	// -- decode direction --
 	nDec := r.N(8000, 400000)
@@ -744,6 +753,9 @@ func TestCheck(t *testing.T) {
 	for _, t := range dnsx.DecoderTypes {
 		r.Floor("decode_rr_"+dnsx.TypeName(t), 200)
 	}
+
+	// -- pointer chains (hand-assembled packets, see chains_test.go) --
+	runChains(r)
 
 	// -- AddPadding --
 	const modes = 8
